@@ -107,79 +107,7 @@ func checkC09(c *core.Ctx, l *core.Ledger) {
 	l.Assumptions = []string{"ast.Field.ID, *ast.EnumItem.Value and ast.ConstantInteger hold exactly the number written in the source (parser is trusted here; C11 covers it thinly)"}
 
 	// 1. NARROW
-	for _, f := range c.AllFuncs("compile", "gen", "ast", "idl", "idl/internal") {
-		if c.IsTestFile(f.Pos()) || narrowSkip(c, f) {
-			continue
-		}
-		k := 0
-		core.Instrs(f, func(in ssa.Instruction) {
-			cv, ok := in.(*ssa.Convert)
-			if !ok {
-				return
-			}
-			_, _, _, fromInt := intBounds(cv.X.Type())
-			lo, hi, _, toInt := intBounds(cv.Type())
-			if !fromInt || !toInt || widthOf2(cv.Type()) >= widthOf2(cv.X.Type()) {
-				return
-			}
-			if _, isC := cv.X.(*ssa.Const); isC {
-				return
-			}
-			k++
-			key := fmt.Sprintf("%s:%s#%d", core.SSAName(f), cv.Type().String(), k)
-			pos := c.Rel(cv.Pos())
-			// both bounds on every path
-			al := map[ssa.Value]bool{}
-			for _, a := range core.Aliases(cv.X) {
-				al[a] = true
-			}
-			loEdges := core.GuardEdges(f, func(cm core.Cmp) bool {
-				if !al[cm.X] {
-					return false
-				}
-				kk, isK := core.ConstInt(cm.Y)
-				if !isK {
-					return false
-				}
-				switch cm.Op {
-				case token.GEQ:
-					return kk >= lo
-				case token.GTR:
-					return kk >= lo-1
-				}
-				return false
-			})
-			hiEdges := core.GuardEdges(f, func(cm core.Cmp) bool {
-				if !al[cm.X] {
-					return false
-				}
-				kk, isK := core.ConstInt(cm.Y)
-				if !isK {
-					return false
-				}
-				switch cm.Op {
-				case token.LEQ:
-					return kk <= hi
-				case token.LSS:
-					return kk <= hi+1
-				}
-				return false
-			})
-			loOK := core.AllPathsThroughEdges(f, cv.Block(), loEdges)
-			hiOK := core.AllPathsThroughEdges(f, cv.Block(), hiEdges)
-			if loOK && hiOK {
-				l.Ok("NARROW", key, pos, fmt.Sprintf("dominated by tests of both bounds [%d,%d]", lo, hi))
-				return
-			}
-			missing := "lower and upper bound"
-			if loOK {
-				missing = "upper bound"
-			} else if hiOK {
-				missing = "lower bound"
-			}
-			l.Bad("NARROW", key, pos, fmt.Sprintf("narrowing conversion to %s of a number taken from the source is not dominated by a test of the %s on every path: out-of-range values wrap around silently", cv.Type(), missing))
-		})
-	}
+	checkNarrowing(c, l, "NARROW", []string{"compile", "gen", "ast", "idl", "idl/internal"})
 	l.Floor("NARROW", 2)
 
 	// 2. INT-ACCEPT
@@ -519,4 +447,83 @@ func checkUnique(c *core.Ctx, l *core.Ledger) {
 func narrowSkip(c *core.Ctx, f *ssa.Function) bool {
 	file := c.RelFile(f.Pos())
 	return strings.HasSuffix(file, "idl/internal/lex.go") || strings.HasSuffix(file, "idl/internal/y.go")
+}
+
+// checkNarrowing (NARROW): every integer conversion to a narrower type whose
+// operand is not a constant is dominated by tests of both bounds of the
+// target type, in the given packages.
+func checkNarrowing(c *core.Ctx, l *core.Ledger, rule string, rels []string) {
+	for _, f := range c.AllFuncs(rels...) {
+		if c.IsTestFile(f.Pos()) || narrowSkip(c, f) {
+			continue
+		}
+		k := 0
+		core.Instrs(f, func(in ssa.Instruction) {
+			cv, ok := in.(*ssa.Convert)
+			if !ok {
+				return
+			}
+			_, _, _, fromInt := intBounds(cv.X.Type())
+			lo, hi, _, toInt := intBounds(cv.Type())
+			if !fromInt || !toInt || widthOf2(cv.Type()) >= widthOf2(cv.X.Type()) {
+				return
+			}
+			if _, isC := cv.X.(*ssa.Const); isC {
+				return
+			}
+			k++
+			key := fmt.Sprintf("%s:%s#%d", core.SSAName(f), cv.Type().String(), k)
+			pos := c.Rel(cv.Pos())
+			// both bounds on every path
+			al := map[ssa.Value]bool{}
+			for _, a := range core.Aliases(cv.X) {
+				al[a] = true
+			}
+			loEdges := core.GuardEdges(f, func(cm core.Cmp) bool {
+				if !al[cm.X] {
+					return false
+				}
+				kk, isK := core.ConstInt(cm.Y)
+				if !isK {
+					return false
+				}
+				switch cm.Op {
+				case token.GEQ:
+					return kk >= lo
+				case token.GTR:
+					return kk >= lo-1
+				}
+				return false
+			})
+			hiEdges := core.GuardEdges(f, func(cm core.Cmp) bool {
+				if !al[cm.X] {
+					return false
+				}
+				kk, isK := core.ConstInt(cm.Y)
+				if !isK {
+					return false
+				}
+				switch cm.Op {
+				case token.LEQ:
+					return kk <= hi
+				case token.LSS:
+					return kk <= hi+1
+				}
+				return false
+			})
+			loOK := core.AllPathsThroughEdges(f, cv.Block(), loEdges)
+			hiOK := core.AllPathsThroughEdges(f, cv.Block(), hiEdges)
+			if loOK && hiOK {
+				l.Ok(rule, key, pos, fmt.Sprintf("dominated by tests of both bounds [%d,%d]", lo, hi))
+				return
+			}
+			missing := "lower and upper bound"
+			if loOK {
+				missing = "upper bound"
+			} else if hiOK {
+				missing = "lower bound"
+			}
+			l.Bad(rule, key, pos, fmt.Sprintf("narrowing conversion to %s of a number taken from the source is not dominated by a test of the %s on every path: out-of-range values wrap around silently", cv.Type(), missing))
+		})
+	}
 }
